@@ -136,6 +136,16 @@ func checkEvalTotal(c evalCase) (msg string, class string) {
 			return fmt.Sprintf("Resolve(%q), second time on the same runner, returned both a value (%s) and an error (%v)", f, obs.Show(again.Val), again.Err), "both"
 		}
 	}
+	if out.Panic == nil {
+		// ... and on a runner that has served every earlier case of this process, failures included
+		if c03Shared == nil {
+			c03Shared = formula.NewRunner()
+		}
+		c03Shared.SetThis(data)
+		if so := obs.Eval(c03Shared, ctx, p.Src.Expression); so.Panic != nil {
+			return fmt.Sprintf("Resolve(%q) on a runner that served many other evaluations before (failed ones included) panicked: %v; on a new runner: %s", f, so.Panic, out), "panic"
+		}
+	}
 	switch {
 	case out.Panic != nil:
 		return fmt.Sprintf("Resolve(%q) panicked: %v", f, out.Panic), "panic"
@@ -151,6 +161,8 @@ func checkEvalTotal(c evalCase) (msg string, class string) {
 }
 
 type ctxKey struct{}
+
+var c03Shared *formula.Runner
 
 var evalCounter int
 
